@@ -8,7 +8,7 @@ P=$1; shift
 cd /verif
 WT=/tmp/tryseed-wt-$$
 git -C /repo worktree add -q --detach "$WT" HEAD || exit 2
-export VERIF_REPO=$WT VERIF_EVIDENCE_DIR=/tmp/tryseed-ev-$$
+export VERIF_REPO=$WT VERIF_EVIDENCE_DIR=/tmp/tryseed-ev-$$ VERIF_REPLAY_DIR=/tmp/tryseed-ev-$$/replays
 trap 'git -C /repo worktree remove --force "$WT" >/dev/null 2>&1; rm -rf "$VERIF_EVIDENCE_DIR"' EXIT
 git -C "$WT" apply "$P" || { echo "patch does not apply"; exit 2; }
 for c in "$@"; do
